@@ -159,6 +159,25 @@ def gen_tables() -> str:
     L.append("def html : HtmlTags := {\n  cellBreak := " + lean_list((chars(x) for x in sorted(cb or [])), per_line=6, indent="    ")
              + ",\n  remove := " + lean_list((chars(x) for x in sorted(rm or [])), per_line=6, indent="    ") + " }\n")
 
+    # ODS: the two repeat caps of _extract_sheet (`cell_repeat > N`, `row_repeat > N`)
+    caps = {}
+    for node in ast.walk(parse(ODS)):
+        if isinstance(node, ast.FunctionDef) and node.name == "_extract_sheet":
+            for c in ast.walk(node):
+                if isinstance(c, ast.Compare) and isinstance(c.left, ast.Name) and c.left.id in ("cell_repeat", "row_repeat"):
+                    ok = len(c.ops) == 1 and isinstance(c.ops[0], ast.Gt) and isinstance(c.comparators[0], ast.Constant) \
+                        and isinstance(c.comparators[0].value, int)
+                    if not ok:
+                        notes.append(f"{ODS}: _extract_sheet compares {c.left.id} with {ast.unparse(c)!r}, the model was written for `{c.left.id} > <int literal>`")
+                    elif c.left.id in caps:
+                        notes.append(f"{ODS}: _extract_sheet compares {c.left.id} more than once")
+                    else:
+                        caps[c.left.id] = c.comparators[0].value
+    for k in ("cell_repeat", "row_repeat"):
+        if k not in caps:
+            notes.append(f"{ODS}: _extract_sheet has no cap comparison on {k}")
+    L.append(f"def odsCaps : Ods.Caps := {{ cell := {caps.get('cell_repeat', 0)}, row := {caps.get('row_repeat', 0)} }}\n")
+
     L.append("/-- translator cross-check notes; must be empty -/")
     L.append("def notes : List String := " + lean_list(lean_str(n) for n in notes) + "\n")
     L.append("end S2T.Gen.Tables\n")
